@@ -4,7 +4,7 @@ cd /verif
 TIER=$1; shift
 for s in "$@"; do
   for p in $(python3 -c "import sys; sys.path.insert(0,'.'); from checkcfg import PROPS; print(' '.join(sorted(PROPS)))"); do
-    out=$(VERIF_SEED=$s VERIF_EVID=/tmp/sweep/evidence VERIF_REPLAYS=/tmp/sweep/replays ./check $p --tier $TIER 2>&1 | grep -E "^\[C|^VIOLATION" | tr '\n' ' ')
+    out=$(VERIF_SEED=$s VERIF_WORK=/tmp/sweep/work VERIF_EVID=/tmp/sweep/evidence VERIF_REPLAYS=/tmp/sweep/replays ./check $p --tier $TIER 2>&1 | grep -E "^\[C|^VIOLATION" | tr '\n' ' ')
     echo "seed=$s $out"
   done
 done
